@@ -77,12 +77,15 @@ static void contextUnref(MPT_INTERFACE(metatype) *mt)
 {
 	MPT_STRUCT(reply_context_defer) *ctx = MPT_baseaddr(reply_context_defer, mt, _mt);
 	
-	if (mpt_refcount_lower(&ctx->ref)) {
-		ctx->reply.send = 0;
-		return;
-	}
+	uintptr_t left = mpt_refcount_lower(&ctx->ref);
+	
+	/* pending request gets default reply while target is available */
 	if (ctx->reply.send && ctx->data.len) {
 		contextSend(ctx, &ctx->data, 0);
+	}
+	if (left) {
+		ctx->reply.send = 0;
+		return;
 	}
 	free(ctx);
 }
